@@ -66,6 +66,10 @@ func gen(args []string) {
 		genSpec(w, tier, r)
 	case "TREE":
 		genTree(w, tier, r)
+	case "EXPR":
+		genExpr(w, tier, r)
+	case "HANDLER":
+		genHandler(w, tier, r)
 	default:
 		fmt.Fprintln(os.Stderr, "unknown channel", ch)
 		os.Exit(2)
